@@ -34,7 +34,22 @@ ENGINES = {
     "mlw": {"continuations": mlw_continuations},
     "fmt": {},
     "queue": {"liveness_marker": "T"},
+    "sock": {},
+    "holder": {},
 }
+
+KERNEL_SOCKETS = "the operating system's datagram sockets: one send_to = one datagram or one error; loopback delivery is loss-free and synchronous (a missing datagram is waited for up to 200 ms)"
+MUTEX = "std::sync::Mutex gives mutual exclusion for a whole emit/flush (modelled: a concurrent execution is an interleaving of whole operations)"
+MEMMODEL = "the release/acquire fragment of the C11 memory model as formalised in Cadence/Model/Holder.lean (views as sets of event ids, coherence per location, RMW atomicity) is the meaning of 'data race' here"
+_S_TB = [KERNEL, TIE, STD_BUFWRITER, KERNEL_SOCKETS]
+_S_RULE = ("engine sock: UdpMetricSink / UnixMetricSink / BufferedUdpMetricSink / BufferedUnixMetricSink on 127.0.0.1 and temp-dir Unix "
+           "datagram sockets, blocking and non-blocking, capacities {0,1,8,512,1432,default,random}, metric lengths incl. 0, 1432, 8192, "
+           "65507, 65508 (EMSGSIZE on UDP), 70000, multi-byte UTF-8; injected failures: EMSGSIZE, ENOENT (missing path), EAGAIN (full "
+           "peer queue, manual drain); stats read directly and through a wrapping QueuingMetricSink after ops; the peer's received "
+           "datagrams are the ground truth; free-running multi-thread runs (2-16 threads) on BufferedSpyMetricSink / BufferedUnixMetricSink "
+           "with and without concurrent flushes; a deterministic lock-contention scenario. Distinct by text; every case is non-trivial")
+_S_NOTE = ("Trusted: Lean kernel + propext/Classical.choice/Quot.sound; kernel socket behaviour is outside any model; the sink model is tied "
+           "to the code by the correspondence on real sockets")
 
 CROSSBEAM = "crossbeam_channel bounded/unbounded channels are linearizable FIFO queues with atomic try_send/recv/is_empty; std::thread::spawn; Arc drop order; unwinding through the worker into Sentinel::drop (all modelled as atomic labels, not verified)"
 _Q_TB = [KERNEL, TIE, CROSSBEAM]
@@ -200,6 +215,46 @@ PROPS = {
         "rule": _Q_RULE,
         "exhaustive_part": "all histories to the stated depth over 2 handles; back-pressure and last-drop tables; random and stress parts are sampled",
     },
+    "C12": {
+        "engine": "sock",
+        "level_text": "Lean 4 theorems C12.interleaving_framing / interleaving_conservation / per_thread_program_order: the writer theorems hold for every list of thread-tagged operations, i.e. every interleaving of any number of threads. PARTIAL: the step from threads to interleavings of whole operations is the Mutex assumption, validated (not proved) by free-running stress whose datagram stream must equal the model's for the observed linearisation and by a deterministic lock-contention scenario.",
+        "level_note": _S_NOTE + "; " + MUTEX + "; real schedules are sampled",
+        "technique": "Lean 4 proof at operation granularity (all interleavings) + threaded correspondence and lock-contention scenario",
+        "trusted_base": _S_TB + [MUTEX],
+        "assumptions": [MUTEX, KERNEL_SOCKETS],
+        "rule": _S_RULE,
+        "exhaustive_part": "",
+    },
+    "C13": {
+        "engine": "sock",
+        "level_text": "Lean 4 theorems C13.unbuffered_exact / buffered_configuration / buffered_datagrams_framed / buffered_sends_the_rest (thin: one attempt with exactly the metric's bytes; buffered sinks are the line writer with terminator newline, capacity 512 by default). PARTIAL: the content is the tie to real sockets; kernel behaviour is outside any model.",
+        "level_note": _S_NOTE,
+        "technique": "Lean 4 proof (thin) + byte-for-byte correspondence on real loopback UDP / Unix datagram sockets",
+        "trusted_base": _S_TB,
+        "assumptions": [KERNEL_SOCKETS],
+        "rule": _S_RULE,
+        "exhaustive_part": "",
+    },
+    "C14": {
+        "engine": "sock",
+        "level_text": "Lean 4 theorems C14.counters_add_up / unbuffered_attempts_are_emits / exact_under_concurrency (fetch_adds commute: any interleaving of any number of threads gives the same totals) + correspondence of stats() after every op against the datagrams the peer actually received, incl. EMSGSIZE / ENOENT / EAGAIN failures and reads through a wrapping queuing sink.",
+        "level_note": _S_NOTE + "; counters are Nat (2^64 wrap-around out of physical reach)",
+        "technique": "Lean 4 proof (fold over attempts; permutation invariance of increments) + stats-vs-received-datagrams correspondence",
+        "trusted_base": _S_TB,
+        "assumptions": [KERNEL_SOCKETS, "Relaxed fetch_add is atomic per counter"],
+        "rule": _S_RULE,
+        "exhaustive_part": "",
+    },
+    "C18": {
+        "engine": "holder",
+        "level_text": "Lean 4 theorems C18.race_free_and_single_winner / protocol_invariant / reports_set_only_after_complete / orderings_are_needed over a release/acquire memory model: any number of threads, any programs of set/get/is_set, every schedule and every coherence-permitted read, under the orderings written in state.rs. The hook traces the orderings the code actually passes; every interleaving of the listed 2-3 thread program sets is executed on the real SingletonHolder under a controlled scheduler and compared event by event.",
+        "level_note": "Trusted: Lean kernel + propext/Classical.choice/Quot.sound; " + MEMMODEL + "; cell accesses are classified read/write by the API call they occur in; on real hardware only sequentially consistent executions are exercised, weak behaviours exist in the model only",
+        "technique": "Lean 4 proof in an operational release/acquire memory model + controlled-scheduler correspondence through the cfg(cadence_verif) hook (orderings are compared data)",
+        "trusted_base": [KERNEL, TIE, MEMMODEL],
+        "assumptions": [MEMMODEL, "the hook shim performs the real operation with the ordering it was given"],
+        "rule": "engine holder: SingletonHolder<usize> under a controlled scheduler (each shim operation waits for a grant): every interleaving (capped at 700 per set in quick) of the program sets {s|g, s|s, s|i, s|s|g, s|g|g, s|g|i, sg|g, sg|sg, gs|ig, s|gg, sgi|is} plus seeded random programs/schedules of 2-3 threads; per call the shim events (operation, Ordering, value observed, sequence number) and the result (None / Some value @ pointer identity) are compared with the model's; distinct by text; non-trivial = contains a losing set or a get",
+        "exhaustive_part": "all interleavings of the listed program sets (thorough: uncapped)",
+    },
     "C19": {
         "engine": "mlw",
         "level_text": "Lean 4 theorems C19.write_only_when_needed / flush_writes_only_pending / emits_are_greedy / greedy_is_minimal / greedy_groups_fit: writes happen only when forced, emit runs produce the in-order greedy packing, which is minimal among all in-order packings.",
@@ -214,6 +269,10 @@ PROPS = {
 
 
 MANIFEST_ENGINES = [
+    {"name": "sock", "path": "harness/src/bin/sock.rs", "serves_properties": ["C12", "C13", "C14"],
+     "kind_free_text": "socket sinks on real loopback UDP / Unix datagram sockets with a reading peer; multi-threaded runs; lock-contention scenario"},
+    {"name": "holder", "path": "harness/src/bin/holder.rs", "serves_properties": ["C18"],
+     "kind_free_text": "SingletonHolder under a controlled scheduler through the cfg(cadence_verif) shim"},
     {"name": "queue", "path": "harness/src/bin/queue.rs", "serves_properties": ["C08", "C09", "C10", "C11", "C15", "C16"],
      "kind_free_text": "drives QueuingMetricSink / its builder with a gated scripted wrapped sink recording thread id, call order, handler calls and its own Drop; plus free-running multi-producer stress"},
     {"name": "fmt", "path": "harness/src/bin/fmt.rs", "serves_properties": ["C01", "C02", "C03", "C04"],
@@ -222,7 +281,7 @@ MANIFEST_ENGINES = [
      "kind_free_text": "drives cadence::ext::MultiLineWriter and BufferedSpyMetricSink (also through StatsdClient::flush and QueuingMetricSink::flush) over a scripted recording Write; the Lean driver runs the model on the same cases"},
 ]
 
-HOOK_COMMITS = []
+HOOK_COMMITS = ["f7f2c36"]
 
 _WIP = "check not built yet (work in progress; planned, see DESIGN.md section 7)"
 NOT_CLAIMED = {"C%02d" % i: _WIP for i in range(1, 21)}
